@@ -45,6 +45,8 @@ def accepts(tok, nullable, v, lazy=False, hidden=False):
         return isinstance(v, (resfam.B, resfam.D))
     if tok == 'bool':
         return isinstance(v, bool)
+    if tok == 'Pos':
+        return isinstance(v, int) and v > 0
     raise ValueError(tok)
 
 
